@@ -149,6 +149,56 @@ theorem fallthrough_next_candidate (regs : List ViewReg) (classifier : Nat) (r :
     · exact Or.inr rfl
     · exact Or.inl rfl
 
+/-! ## which predicates the lookup asks -/
+
+/-- **The lookup asks the candidates' predicates in candidate order, each once, and stops at the first that
+holds**: the trace of the views whose predicates `_call_view` / `MultiView.__call__` evaluate (model `callViewAsked`,
+the call loops written with a trace) is the candidate list cut after the first qualifying candidate. -/
+theorem lookup_asks_candidate_prefix (regs : List ViewReg) (classifier : Nat) (r : Request) (h : Coherent regs) :
+    callViewAsked (registerAll regs) classifier r =
+      ((candidates regs classifier r).takeWhile fun v => !v.holds r).map (·.tag) ++
+        (((candidates regs classifier r).find? (·.holds r)).map (·.tag)).toList := by
+  have hslot : ∀ k, registerAll regs k = slotOf (inForce (slotRegs regs k)) := registerAll_slot regs h
+  have hviews : (findViews (registerAll regs) classifier r).flatMap (Callable.views r)
+      = candidates regs classifier r := by
+    simp only [findViews, sroPairs_eq, candidates, hslot, List.flatMap_assoc, slotCallables_slotOf_views]
+  simp only [callViewAsked, askedViews_eq, hviews, askedFirst_eq, askedSpec]
+
+/-- **The selected candidate's predicates are evaluated exactly once, and nothing is asked after it**: when a view
+runs (or refuses), the trace is `tags of the failing candidates before it ++ [its tag]`; with distinct tags its tag
+occurs once.  (A second evaluation of the winner's predicates — e.g. a pre-check before the call — is not what the
+lookup does: a stateful predicate is asked once per candidate reached.) -/
+theorem selected_candidate_asked_once_and_last (regs : List ViewReg) (classifier : Nat) (r : Request)
+    (h : Coherent regs) (t : Nat)
+    (hrun : callView (registerAll regs) classifier r = .response t ∨
+            callView (registerAll regs) classifier r = .forbidden t) :
+    ∃ pre v post, candidates regs classifier r = pre ++ v :: post ∧ (∀ u ∈ pre, u.holds r = false) ∧
+      v.holds r = true ∧ v.tag = t ∧
+      callViewAsked (registerAll regs) classifier r = pre.map (·.tag) ++ [t] ∧
+      (((candidates regs classifier r).map (·.tag)).Nodup →
+        (callViewAsked (registerAll regs) classifier r).count t = 1) := by
+  rw [lookup_eq_spec regs classifier r h] at hrun
+  obtain ⟨pre, v, post, hsplit, hpre, hv, rfl⟩ := (fallthrough_next_candidate regs classifier r t).mp hrun
+  have hall : ∀ u ∈ pre, u.holds r = false := hpre
+  have hany : pre.any (·.holds r) = false := by
+    rw [List.any_eq_false]; intro u hu; simp [hall u hu]
+  have htrace : callViewAsked (registerAll regs) classifier r = pre.map (·.tag) ++ [v.tag] := by
+    have hslot : ∀ k, registerAll regs k = slotOf (inForce (slotRegs regs k)) := registerAll_slot regs h
+    have hviews : (findViews (registerAll regs) classifier r).flatMap (Callable.views r)
+        = candidates regs classifier r := by
+      simp only [findViews, sroPairs_eq, candidates, hslot, List.flatMap_assoc, slotCallables_slotOf_views]
+    simp only [callViewAsked, askedViews_eq, hviews, hsplit, askedFirst_append, hany, Bool.false_eq_true, if_false,
+      askedFirst, hv, if_true]
+  refine ⟨pre, v, post, hsplit, hpre, hv, rfl, htrace, ?_⟩
+  intro hnd
+  rw [htrace]
+  rw [hsplit, List.map_append, List.map_cons] at hnd
+  have hnot : v.tag ∉ pre.map (·.tag) := by
+    intro hm
+    have := (List.nodup_append.mp hnd).2.2 _ hm _ List.mem_cons_self
+    exact this rfl
+  simp [List.count_append, List.count_eq_zero_of_not_mem hnot]
+
 /-- Refusal is exactly: the first qualifying candidate is protected and the policy denies. -/
 theorem forbidden_iff (regs : List ViewReg) (classifier : Nat) (r : Request) (v : DView)
     (hf : (candidates regs classifier r).find? (·.holds r) = some v) :
@@ -486,7 +536,8 @@ private def reqGet : Request where
 
 /-- A population with a route-bound view, a more specific and a less specific context, a same-phash
 override, a failing predicate and `GET ⇒ HEAD`: it is `Coherent`, five views compete, and the winner is
-found by falling through two candidates. -/
+found by falling through the route-bound candidate (the lookup asks views 4 and 3, each once, and nothing after the
+winner). -/
 example :
     let regs : List ViewReg :=
       [⟨0, 0, 10, "", [], none, false, 1⟩,
@@ -497,7 +548,8 @@ example :
        ⟨0, 0, 11, "", [], none, false, 6⟩]
     coherentB regs = true ∧
     (candidates regs 0 reqGet).map (·.tag) = [4, 3, 5, 6, 1] ∧
-    callView (registerAll regs) 0 reqGet = .response 3 ∧ expectedView regs 0 reqGet = .response 3 := by
+    callView (registerAll regs) 0 reqGet = .response 3 ∧ expectedView regs 0 reqGet = .response 3 ∧
+    callViewAsked (registerAll regs) 0 reqGet = [4, 3] := by
   decide +kernel
 
 /-- hypotheses of `more_preds_first` / `more_predicates_first_in_slot_partial` are satisfiable -/
